@@ -968,7 +968,7 @@ class Run:
             self.wrapped(["add", "--", ":(top)" + path])
         return len(paths)
 
-    def _episode(self, act, start, cont, abort, in_progress):
+    def _episode(self, act, start, cont, abort, in_progress, skip=None):
         """start: argv of the command; cont / abort: argv to continue / abort; in_progress(): is the operation open"""
         p = self.wrapped(start)
         if p.returncode == 0:
@@ -984,6 +984,12 @@ class Run:
         it = 0
         while in_progress() and it < 12:
             it += 1
+            if act["how"] == "skip":
+                if not self._unmerged():
+                    break
+                stops += 1
+                q = self.wrapped(skip, extra_env={"GIT_EDITOR": "true"})
+                continue
             n = self._resolve_all(act["res"])
             if n == 0 and stops == 0:
                 break
@@ -1017,16 +1023,19 @@ class Run:
 
     def act_CherryPickR(self, act):
         self._episode(act, ["cherry-pick", self.c2sha[act["c"]]], ["cherry-pick", "--continue"], ["cherry-pick", "--abort"],
-                      lambda: self._gitdir_has("CHERRY_PICK_HEAD") or self._gitdir_has("sequencer"))
+                      lambda: self._gitdir_has("CHERRY_PICK_HEAD") or self._gitdir_has("sequencer"),
+                      skip=["cherry-pick", "--skip"])
 
     def act_CherryPickManyR(self, act):
         self._episode(act, ["cherry-pick"] + [self.c2sha[c] for c in act["cs"]], ["cherry-pick", "--continue"],
                       ["cherry-pick", "--abort"],
-                      lambda: self._gitdir_has("CHERRY_PICK_HEAD") or self._gitdir_has("sequencer"))
+                      lambda: self._gitdir_has("CHERRY_PICK_HEAD") or self._gitdir_has("sequencer"),
+                      skip=["cherry-pick", "--skip"])
 
     def act_RebaseR(self, act):
         self._episode(act, ["rebase", "-q", self._other()], ["rebase", "--continue"], ["rebase", "--abort"],
-                      lambda: self._gitdir_has("rebase-merge") or self._gitdir_has("rebase-apply"))
+                      lambda: self._gitdir_has("rebase-merge") or self._gitdir_has("rebase-apply"),
+                      skip=["rebase", "--skip"])
 
     def act_Amend(self, act):
         self.wrapped(["add", "-A"])
@@ -1055,6 +1064,11 @@ class Run:
         "plumbing": [["rev-parse", "HEAD"], ["ls-files", "-s"], ["cat-file", "-p", "HEAD"],
                      ["for-each-ref", "refs/heads"], ["write-tree"], ["diff-index", "--cached", "HEAD"]],
         "alias": [["st"], ["lg"], ["sh"], ["ci-dry"], ["gr"], ["grd"], ["lq"]],
+        # dry runs and refused operations (C02: "aborted, fails, or is a dry run leaves every note and all pending
+        # attribution exactly as it was")
+        "dryrun": [["commit", "--dry-run", "-a", "-m", "x"], ["add", "--dry-run", "-A"], ["clean", "-n"],
+                   ["commit", "--dry-run", "--amend", "--no-edit"], ["stash", "show"], ["merge", "--no-commit", "no-such-branch"],
+                   ["rebase", "no-such-branch"], ["cherry-pick", "no-such-rev"], ["reset", "--hard", "no-such-rev"]],
     }
 
     def act_ReadOnly(self, act):
